@@ -38,8 +38,11 @@ class IRSamples:
                          preprocessed_form=Node("Form", constants=_PyCall(lambda: list(self.consts[1:])), coefficients=_PyCall(lambda: [self.coef[n] for n in coefs])),
                          original_coefficient_positions=[("A", "B", "C").index(n) for n in coefs], rank=2)
         itg = Node("IntegralData", integral_type=itype, enabled_coefficients=list(enabled), subdomain_id=(1,))
+        # the form has integrals of other types too (a cell, an interior-facet and a vertex group next to the one being processed)
+        others = [Node("IntegralData", integral_type=t_, enabled_coefficients=list(enabled), subdomain_id=(2,)) for t_ in ("cell", "interior_facet", "vertex")]
+        form_data.f["integral_data"] = [others[0], itg, others[1], others[2]]
         return {"form_data": form_data, "form_index": 0, "unique_elements": [self.elA, self.elB, self.elC], "integral_names": {}, "options": {},
-                "visualise": False, "itg_data": itg, "itg_data_index": 0, "expression_ir": {}, "ir": {}}
+                "visualise": False, "itg_data": itg, "itg_data_index": 1, "expression_ir": {}, "ir": {}}
 
     def expression(self, g, object_names=None):
         """(interpreter, environment) for _compute_expression_ir: processed expression keeps coefficients [B, C] of the original
